@@ -49,6 +49,15 @@ def canon(obj):
             # fields the class itself excludes from equality (eq=False) are informational
             **{a.name: canon(getattr(obj, a.name)) for a in attrs.fields(type(obj)) if a.eq},
         }
+    import dataclasses
+
+    if dataclasses.is_dataclass(obj) and not isinstance(obj, type):
+        return {
+            "!cls": type(obj).__name__,
+            **{f.name: canon(getattr(obj, f.name)) for f in dataclasses.fields(obj) if f.compare},
+        }
+    if hasattr(obj, "__dict__") and not callable(obj):
+        return {"!cls": type(obj).__name__, **{k: canon(v) for k, v in vars(obj).items() if not k.startswith("_")}}
     return {"!obj": type(obj).__name__}
 
 
